@@ -170,8 +170,8 @@ def run(ctx):
         mts=(1,), hist=False, extra=1)
     if not q:
         tlc(ctx, "c31_j1d", NS=2, NI=2, L=2, max_muts=2, mts=(0, 3), hist=False)
-        tlc(ctx, "c31_j1e", NS=3, NI=2, L=1, max_muts=2, mts=(0, 1), unc=(True, False), mnvals=(0, 3))
-        tlc(ctx, "c31_j1f", NS=2, NI=3, L=1, max_muts=2, mts=(2,), unc=(True,), mnvals=(1, 2, 6), hist=False)
+        tlc(ctx, "c31_j1e", NS=3, NI=2, L=1, max_muts=2, mts=(1,), unc=(True, False), mnvals=(0, 3))
+        tlc(ctx, "c31_j1f", NS=2, NI=3, L=1, max_muts=2, mts=(2,), unc=(True,), mnvals=(1, 6), hist=False)
     # J2
     insts = tlc(ctx, "c31_j2a", emit=True, NS=2, NI=2, L=1, max_muts=2, mts=(0, 2), extra=1,
                 sels=ALL + ("bogus",))
@@ -180,8 +180,8 @@ def run(ctx):
     ctx.exhaustive = len(insts) <= cap
     if len(insts) > cap:
         insts = ctx.rng.sample(insts, cap)
-    n = 600 if q else 12000
-    insts += tlc(ctx, "c31_j2s", emit=True, simulate=n, NS=3, NI=3, L=3, max_muts=4, mts=(0, 1, 3), unc=(True, False),
+    n = 600 if q else 8000
+    insts += tlc(ctx, "c31_j2s", emit=True, simulate=n, NS=3, NI=2, L=3, max_muts=4, mts=(0, 1, 3), unc=(True, False),
                  mnvals=(0, 2, 7), extra=1, sels=ALL + ("bogus",))
     insts += tlc(ctx, "c31_j2t", emit=True, simulate=n // 2, NS=3, NI=2, L=2, max_muts=3, mts=(0, 2),
                  tree_filter="nodangling")
